@@ -14,7 +14,7 @@ def run(fw):
     # HOW=1/5 (a stand-alone units object named by a symbolic string) send the symbolic name through the standard-units table:
     # no verdict within 20 min (measured); attempted as best effort in the thorough tier only
     hows = [h for h in HOW if h not in (1, 5) or fw.tier == 'thorough']
-    jobs = [('h_fix_interfaces', ['POS=%d' % p], 'position: ' + POS[p]) for p in POS] + [('h_link_units', ['HOW=%d' % h], 'units given ' + HOW[h]) for h in hows] + [('h_clean', [], '9 emptiness flags, second child empty'), ('h_clean', ['C3NAMED'], '9 emptiness flags, second child named')]
+    jobs = [('h_fix_interfaces', ['POS=%d' % p], 'position: ' + POS[p]) for p in POS] + [('h_link_units', ['HOW=%d' % h], 'units given ' + HOW[h]) for h in hows] + [('h_link_units_tree', [], 'two siblings and a nested component; which variables hold unlinkable units is symbolic')] + [('h_clean', [], '9 emptiness flags, second child empty'), ('h_clean', ['C3NAMED'], '9 emptiness flags, second child named')]
     wit = {('h_fix_interfaces', 'POS=3'), ('h_link_units', 'HOW=4'), ('h_clean', '')}
 
     def one(j):
